@@ -25,11 +25,14 @@ RULE = {
             "':' CR LF '{' '}', unit ids {0,1,17,247,255,random}, tids {0,1,65535,random}, out-of-range header "
             "fields) compared with the spec ADU; the packet handed whole to a fresh receiver under every unit-filter "
             "configuration; computeLRC/checkLRC on all strings of length <= 1, a sweep of length 2 and random "
-            "strings up to 300 bytes.  non-trivial = the header fields are in range / the frame decodes"),
+            "strings up to 300 bytes; exception responses for refused function codes across 1..127 (implemented and not: "
+            "0x09, 0x0A, 0x41, 0x64, 0x7F ...) x exception codes 1..11, built and handed whole to a fresh receiver with an "
+            "oracle that does not ask the decoder whether they are valid.  non-trivial = the header fields are in range / the frame decodes"),
     "C06": ("[tcp/ascii] streams of 1-4 mixed valid frames (both decoder directions) cut into chunks: ALL cut sets "
             "of streams <= 14 bytes, every single cut and every double cut of longer streams, random k-cuts, "
             "byte-at-a-time, empty reads interspersed; frames at the size extremes (PDU 1, 2, 252, 253 bytes) cut behind the "
-            "header, in the middle and just before the end; unit filter varied (single, listed, 0/0xFF, foreign unit "
+            "header, in the middle and just before the end; exception-response frames (also for unimplemented functions) cut "
+            "everywhere and in streams, judged independently of the decoder; unit filter varied (single, listed, 0/0xFF, foreign unit "
             "in the stream).  distinct = distinct (stream, chunking, filter)"),
     "C07": ("[tcp/ascii] valid frames of several message types corrupted by every single-bit flip, double-bit flips "
             "(all for frames <= 24 bytes in the thorough tier, sampled otherwise), byte substitution at every "
@@ -376,6 +379,10 @@ def suite_build(tier):
             for label, m, _ in extreme_messages(direction, r):
                 if m is not None:
                     cases.append(build_case(kind, m, r.choice([0, 65535, r.randrange(65536)]), 0, r.choice([0, 1, 247, 255]), label))
+        # exception responses for implemented and unimplemented functions, all exception codes
+        from pymodbus.pdu import ExceptionResponse
+        for fc, code in exception_pdus(r, tier):
+            cases.append(build_case(kind, ExceptionResponse(fc, code), r.choice([0, 65535, r.randrange(65536)]), 0, r.choice([1, 247, 255]), "exception"))
         # header fields out of range
         for tid, pid, uid in ((65536, 0, 1), (-1, 0, 1), (1, 65536, 1), (1, 0, 256), (1, 0, -1), (70000, 0, 300)):
             cases.append(build_case(kind, rrm.ReadHoldingRegistersRequest(1, 1), tid, pid, uid, "range"))
@@ -458,6 +465,61 @@ def suite_whole(tier):
                     lab = "tls-multi-unit" if (kind == "tls" and single is False) else "whole-" + label
                     cases.append(feed_case(kind, direction, units, single, [f], [adu(kind, f)], lab))
     return Suite("a_whole", IMPORTS, "chk_c06", cases, shard=150)
+
+
+EXC_FCS = [1, 2, 3, 4, 5, 6, 7, 8, 0x09, 0x0A, 11, 12, 15, 16, 17, 20, 21, 22, 23, 24, 43, 0x41, 0x64, 0x7F]
+
+
+def exception_pdus(r, tier):
+    """[fc | 0x80, code] for refused function codes across 1..127 (implemented or not) and exception codes 1..11"""
+    fcs = EXC_FCS + [r.randrange(1, 128) for _ in range(4 if tier == "quick" else 40)]
+    out = []
+    for i, fc in enumerate(fcs):
+        codes = {1 + (i % 11), 1 + ((i * 7 + 3) % 11)} if tier == "quick" else range(1, 12)
+        out += [(fc, code) for code in sorted(codes)]
+    return out
+
+
+def suite_exc_whole(tier):
+    """exception responses (client direction) for implemented AND unimplemented functions: built by the
+    framer, and the whole packet handed to a fresh receiver; oracle independent of the decoder's verdict"""
+    r = common.rng("a_exc_whole")
+    cases = []
+    for kind in KINDS:
+        for fc, code in exception_pdus(r, tier):
+            uid = r.choice([1, 17, 247, 255])
+            p = bytes([fc | 0x80, code])
+            f = (r.choice([0, 1, 65535, r.randrange(65536)]), 0, uid, p) if kind == "tcp" else (0, 0, uid if kind == "ascii" else 0, p)
+            units, single = r.choice([([uid], False), ([uid], None), ([9], True)]) if kind != "tls" else ([uid], None)
+            cases.append(feed_case(kind, "client", units, single, [f], [adu(kind, f)], "exc-%s" % ("impl" if fc in (1, 2, 3, 4, 5, 6, 7, 8, 11, 12, 15, 16, 17, 20, 21, 22, 23, 24, 43) else "unimpl")))
+    return Suite("a_exc_whole", IMPORTS, "chk_c06x", cases, shard=300)
+
+
+def suite_exc_cuts(tier):
+    """exception-response frames cut everywhere (all cut sets of the 9-byte TCP frame; all single and sampled
+    multi cuts of the 11-character ASCII frame) and mixed into longer streams"""
+    r = common.rng("a_exc_cuts")
+    cases = []
+    for kind in ("tcp", "ascii"):
+        picks = [(0x09, 1), (0x41, 4), (0x7F, 11), (0x03, 2)] + ([] if tier == "quick" else exception_pdus(r, "quick"))
+        for fc, code in picks:
+            uid = r.choice([1, 17, 247])
+            mk = (lambda pdu: (r.choice([1, 0x1234, 65535]), 0, uid, pdu)) if kind == "tcp" else (lambda pdu: (0, 0, uid, pdu))
+            f = mk(bytes([fc | 0x80, code]))
+            a = adu(kind, f)
+            n = len(a)
+            cuts = list(all_cut_sets(n)) if (kind == "tcp" and (fc, code) == picks[0]) or tier != "quick" and n <= 11 else \
+                [()] + [(c,) for c in range(1, n)] + [tuple(sorted(r.sample(range(1, n), k))) for k in (2, 3, 5) for _ in range(8)] + [tuple(range(1, n))]
+            for cs in cuts:
+                cases.append(feed_case(kind, "client", [uid], False, [f], cut(a, cs), "exc-cuts"))
+            # a stream of exception responses for different refused functions
+            frames = [mk(bytes([g | 0x80, c])) for g, c in r.sample(exception_pdus(r, "quick"), 3)] + [f]
+            st = b"".join(adu(kind, x) for x in frames)
+            for _ in range(10 if tier == "quick" else 60):
+                k = r.randrange(1, 6)
+                cases.append(feed_case(kind, "client", [uid], False, frames, cut(st, sorted(r.sample(range(1, len(st)), k))), "exc-stream"))
+            cases.append(feed_case(kind, "client", [uid], False, frames, [st], "exc-stream"))
+    return Suite("a_exc_cuts", IMPORTS, "chk_c06x", cases, shard=300)
 
 
 # ----------------------------------------------------------------------------- C06
@@ -868,9 +930,9 @@ def suite_resync(tier):
 
 def suites_for(pid, tier):
     if pid == "C03":
-        return [suite_build(tier), suite_lrc(tier), suite_whole(tier)]
+        return [suite_build(tier), suite_lrc(tier), suite_whole(tier), suite_exc_whole(tier)]
     if pid == "C06":
-        return [suite_cuts_small(tier), suite_cuts_multi(tier), suite_cuts_extreme(tier)]
+        return [suite_cuts_small(tier), suite_cuts_multi(tier), suite_cuts_extreme(tier), suite_exc_cuts(tier)]
     if pid == "C07":
         return [suite_corrupt(tier), suite_lenfield(tier)]
     if pid == "C11":
@@ -989,11 +1051,11 @@ def replay_case_for(pid, suite, desc):
         return None
     print(json.dumps(desc)[:3000])
     from lib import coqrun
-    if suite in ("a_whole", "a_cuts_small", "a_cuts_multi", "a_cuts_extreme"):
+    if suite in ("a_whole", "a_cuts_small", "a_cuts_multi", "a_cuts_extreme", "a_exc_whole", "a_exc_cuts"):
         frames = [(f[0], f[1], f[2], bytes.fromhex(f[3])) for f in desc["frames"]]
         c = feed_case(desc["framer"], desc["decoder"], desc["units"], desc["single"], frames,
                       [bytes.fromhex(x) for x in desc["chunks"]], "replay")
-        r = coqrun.eval_cases("A_replay", IMPORTS, "chk_c06", [c.term])
+        r = coqrun.eval_cases("A_replay", IMPORTS, "chk_c06x" if suite.startswith("a_exc") else "chk_c06", [c.term])
     elif suite in ("a_corrupt", "a_lenfield"):
         c = corrupt_case(desc["framer"], desc["decoder"], desc["units"], desc["single"],
                          [bytes.fromhex(x) for x in desc["chunks"]], "replay", {})
